@@ -1240,3 +1240,182 @@ Proof.
       exists res. split; [assumption|]. split; [assumption|].
       exact (Forall2_static_trans _ _ _ (loop_body_static k items) R3).
 Qed.
+
+(* ================= resolve_flexible_lengths ================= *)
+Definition exh_prem (c : Item) : Prop :=
+  item_fin c /\ fi_frozen c = false /\ qh c == qcl c (qb c) /\ qho c == qh c + qm c.
+Definition grow_ok (c : Item) : Prop := 0 <= qg c /\ (qg c == 0 \/ 1 <= qg c).
+Definition shrink_ok (c : Item) : Prop := 0 <= qs c /\ (qs c == 0 \/ 1 <= qs c) /\ 0 <= qib c.
+
+Lemma sum_axis_gaps_fin (gap : XQ) n : finite gap -> finite (sum_axis_gaps gap n).
+Proof.
+  intro F. unfold sum_axis_gaps. destruct (n <=? 1)%Z; [exact fin_zero|].
+  apply mul_fin; [assumption | apply of_Z_fin].
+Qed.
+
+Lemma freeze_fields (e g s : bool) (c : Item) : item_fin c -> fi_frozen c = false ->
+  let c' := freeze_inflexible e g s c in
+  static_eq c c' /\ item_fin c' /\ qt c' = qh c /\ (fi_frozen c' = true -> qot c' = qh c + qm c) /\
+  (fi_frozen c' = true <->
+     e = true \/ (qg c == 0 /\ qs c == 0) \/ (g = true /\ qh c < qb c) \/ (s = true /\ qb c < qh c)).
+Proof.
+  intros F NF c'. assert (F' := F). unfold item_fin in F. decompose [and] F. clear F.
+  destruct (margin_sum_fin c F') as [Fm1 Fm2].
+  subst c'. unfold freeze_inflexible. fi_simpl. unfold margin_sum in *. fi_simpl.
+  set (cond := e || (eqb (fi_grow c) zero && eqb (fi_shrink c) zero) || (g && gtb (fi_basis c) (fi_hyp_inner c))
+               || (s && ltb (fi_basis c) (fi_hyp_inner c))).
+  assert (CE : cond = true <->
+     e = true \/ (qg c == 0 /\ qs c == 0) \/ (g = true /\ qh c < qb c) \/ (s = true /\ qb c < qh c)).
+  { unfold cond, gtb. rewrite !orb_true_iff, !andb_true_iff.
+    rewrite (eqb_true (fi_grow c) zero) by (assumption || exact fin_zero).
+    rewrite (eqb_true (fi_shrink c) zero) by (assumption || exact fin_zero).
+    rewrite (ltb_true (fi_hyp_inner c) (fi_basis c)) by assumption.
+    rewrite (ltb_true (fi_basis c) (fi_hyp_inner c)) by assumption.
+    rewrite val_zero. unfold qg, qs, qh, qb. tauto. }
+  assert (Fhi : finite (fi_hyp_inner c)) by (unfold item_fin in F'; tauto).
+  destruct (add_fin (fi_hyp_inner c) _ Fhi Fm1) as [A1 A2].
+  destruct cond eqn:EC.
+  - split; [repeat split|]. split; [unfold item_fin; fi_simpl; repeat split; assumption|].
+    split; [reflexivity|]. split.
+    + intros _. unfold qot, qh. fi_simpl. rewrite A2, Fm2. reflexivity.
+    + fi_simpl. split; intro; [apply CE; reflexivity | reflexivity].
+  - split; [repeat split|]. split; [unfold item_fin; fi_simpl; repeat split; assumption|].
+    split; [reflexivity|]. fi_simpl. rewrite NF. split; [discriminate|].
+    split; [discriminate|]. intro K. apply CE in K. discriminate.
+Qed.
+
+Lemma cnt_le_length (l : list Item) : (cnt l <= length l)%nat.
+Proof. unfold cnt. induction l; simpl; [lia|]. destruct (unfrozen a); simpl; lia. Qed.
+
+Lemma qclamp_lt_at_max c : item_fin c -> qcl c (qb c) < qb c -> exists m, qmaxo c = Some m /\ qcl c (qb c) == effmax (qmin c) m.
+Proof. intros _ L. apply qclamp_lt_max. exact L. Qed.
+
+Theorem exhausted (items : list Item) (gap M : XQ) :
+  finite gap -> finite M -> (forall c, In c items -> exh_prem c) ->
+  let gaps := val (sum_axis_gaps gap (zlen items)) in
+  let hyp_total := gaps + qsum qho items in
+  (hyp_total < val M -> forall c, In c items -> grow_ok c) ->
+  (val M < hyp_total -> forall c, In c items -> shrink_ok c) ->
+  exists res, resolve_flexible_lengths items gap (Some M) = Some res /\ Forall2 static_eq items res /\
+    (forall c, In c res -> fi_frozen c = true /\ item_fin c /\ qot c == qt c + qm c) /\
+    (gaps + qsum qot res == val M \/
+     (hyp_total < val M /\ forall c, In c res -> ~ qg c == 0 -> at_max c) \/
+     (val M < hyp_total /\ forall c, In c res -> ~ qs c == 0 -> ~ qib c == 0 -> at_min c)).
+Proof.
+  intros Fg FM Hp gaps hyp_total HG HS.
+  unfold resolve_flexible_lengths.
+  set (tg := sum_axis_gaps gap (zlen items)) in *.
+  assert (Ftg : finite tg) by (apply sum_axis_gaps_fin; assumption).
+  destruct (fsum_fin fi_hyp_outer items) as [FH1 FH2].
+  { intros c Hc. destruct (Hp c Hc) as [F _]. unfold item_fin in F. tauto. }
+  destruct (add_fin tg _ Ftg FH1) as [FU1 FU2].
+  set (uff := add tg (fsum (map fi_hyp_outer items))) in *.
+  assert (UV : val uff == hyp_total). { rewrite FU2, FH2. unfold hyp_total, gaps. fold qho. reflexivity. }
+  cbn [unwrap_or].
+  set (growing := ltb uff M). set (shrinking := gtb uff M).
+  set (ex := negb growing && negb shrinking).
+  set (items1 := map (freeze_inflexible ex growing shrinking) items).
+  assert (FF : forall c, In c items -> let c' := freeze_inflexible ex growing shrinking c in
+     static_eq c c' /\ item_fin c' /\ qt c' = qh c /\ (fi_frozen c' = true -> qot c' = qh c + qm c) /\
+     (fi_frozen c' = true <->
+        ex = true \/ (qg c == 0 /\ qs c == 0) \/ (growing = true /\ qh c < qb c) \/ (shrinking = true /\ qb c < qh c))).
+  { intros c Hc. destruct (Hp c Hc) as [F [NF _]]. apply freeze_fields; assumption. }
+  assert (ST1 : Forall2 static_eq items items1).
+  { unfold items1. apply Forall2_static_map. intro c. unfold freeze_inflexible.
+    match goal with |- context [if ?b then _ else _] => destruct b end; repeat split. }
+  assert (LoE : qsum LoT items1 == qsum qho items).
+  { unfold items1. rewrite qsum_map. apply qsum_ext. intros c Hc. destruct (FF c Hc) as [S [_ [T1 [O1 _]]]].
+    destruct (Hp c Hc) as [_ [_ [_ Ho]]]. destruct (static_q _ _ S) as [_ [_ [Eh [_ [_ [_ [_ [_ Em]]]]]]]].
+    unfold LoT. destruct (fi_frozen (freeze_inflexible ex growing shrinking c)) eqn:E.
+    - rewrite (O1 eq_refl). lra.
+    - rewrite Eh, Em. lra. }
+  destruct ex eqn:EX.
+  - (* exactly sized *)
+    exists items1. split; [reflexivity|]. split; [assumption|].
+    assert (AF : forall c, In c items1 -> fi_frozen c = true /\ item_fin c /\ qot c == qt c + qm c).
+    { intros c' Hc'. apply in_map_iff in Hc'. destruct Hc' as [c [<- Hc]].
+      destruct (FF c Hc) as [S [F1 [T1 [O1 FE]]]].
+      assert (E : fi_frozen (freeze_inflexible true growing shrinking c) = true) by (apply FE; left; reflexivity).
+      split; [assumption|]. split; [assumption|]. rewrite (O1 E), T1.
+      destruct (static_q _ _ S) as [_ [_ [_ [_ [_ [_ [_ [_ Em]]]]]]]]. rewrite Em. reflexivity. }
+    split; [assumption|]. left.
+    assert (E : qsum qot items1 == qsum LoT items1).
+    { apply qsum_ext. intros c Hc. unfold LoT. destruct (AF c Hc) as [-> _]. reflexivity. }
+    rewrite E, LoE.
+    unfold ex in EX. apply andb_true_iff in EX. destruct EX as [E1 E2]. apply negb_true_iff in E1, E2.
+    unfold growing in E1. unfold shrinking, gtb in E2.
+    apply ltb_false in E1; [|assumption|assumption]. apply ltb_false in E2; [|assumption|assumption].
+    fold hyp_total. lra.
+  - assert (Fit1 : forall c, In c items1 -> item_fin c).
+    { intros c' Hc'. apply in_map_iff in Hc'. destruct Hc' as [c [<- Hc]]. apply (FF c Hc). }
+    destruct (used_space_fin tg items1 Ftg Fit1) as [US1 US2].
+    destruct (sub_fin M _ FM US1) as [IF1 _].
+    cbn [maybe_sub_o unwrap_or].
+    set (k := mkCtx tg (Some M) uff (sub M (used_space_of tg items1)) growing shrinking).
+    assert (Hlen : (cnt items1 < S (length items1))%nat) by (pose proof (cnt_le_length items1); lia).
+    unfold ex in EX. apply andb_false_iff in EX.
+    destruct growing eqn:EG.
+    + (* growing *)
+      assert (GL : hyp_total < val M). { unfold growing in EG. apply ltb_true in EG; [|assumption|assumption]. lra. }
+      assert (ES : shrinking = false).
+      { unfold shrinking, gtb. apply ltb_false; [assumption|assumption|]. lra. }
+      assert (K : GCtx k (val M) gaps).
+      { constructor; cbn; try assumption; try reflexivity. exists M. repeat split; try assumption; reflexivity. }
+      assert (I : InvG (val M) gaps items1).
+      { constructor.
+        - intros c' Hc'. apply in_map_iff in Hc'. destruct Hc' as [c [<- Hc]]. destruct (FF c Hc) as [S [F1 _]].
+          split; [assumption|]. apply (gprem_static c _ S). destruct (Hp c Hc) as [_ [_ [Hh _]]].
+          destruct (HG GL c Hc) as [G1 G2]. repeat split; assumption.
+        - intros c' Hc' E'. apply in_map_iff in Hc'. destruct Hc' as [c [<- Hc]]. destruct (FF c Hc) as [S [_ [T1 [_ FE]]]].
+          destruct (static_q _ _ S) as [Eb [_ [Eh _]]]. rewrite Eb, Eh, T1. split; [|intros _; reflexivity].
+          destruct (Qlt_le_dec (qh c) (qb c)) as [L|L]; [|assumption]. exfalso.
+          assert (fi_frozen (freeze_inflexible false true shrinking c) = true) by (apply FE; right; right; left; auto).
+          congruence.
+        - intros c' Hc' E'. apply in_map_iff in Hc'. destruct Hc' as [c [<- Hc]]. destruct (FF c Hc) as [S [_ [T1 [O1 _]]]].
+          destruct (static_q _ _ S) as [_ [_ [_ [_ [_ [_ [_ [_ Em]]]]]]]]. rewrite (O1 E'), T1, Em. reflexivity.
+        - rewrite LoE. fold hyp_total. assumption.
+        - left. intros c' Hc' E' Hg'. apply in_map_iff in Hc'. destruct Hc' as [c [<- Hc]].
+          destruct (FF c Hc) as [S [_ [T1 [_ FE]]]].
+          destruct (static_q _ _ S) as [_ [_ [_ [_ [Emn [Emx [Eg _]]]]]]]. rewrite Eg in Hg'.
+          apply FE in E'. destruct E' as [E'|[[Z _]|[[_ L]|[E' _]]]]; try discriminate; try tauto.
+          destruct (Hp c Hc) as [Fc [_ [Hh _]]].
+          destruct (qclamp_lt_at_max c Fc) as [m [Em Ec]]; [lra|].
+          exists m. rewrite Emx, Emn. split; [assumption|]. rewrite T1, Hh. assumption.
+          rewrite ES in E'. discriminate. }
+      destruct (flex_loop_growing k (val M) gaps K (S (length items1)) items1 I Hlen) as [res [R1 [R2 R3]]].
+      exists res. split; [exact R1|]. split; [exact (Forall2_static_trans _ _ _ ST1 R3)|]. split.
+      * intros c Hc. split; [apply (pg_frozen _ _ _ R2 c Hc)|]. split; [apply (pg_fin _ _ _ R2 c Hc) | apply (pg_outer _ _ _ R2 c Hc)].
+      * destruct (pg_law _ _ _ R2) as [L|L]; [left; assumption|]. right. left. split; assumption.
+    + (* shrinking *)
+      destruct EX as [EX|EX]; [discriminate|]. apply negb_false_iff in EX.
+      assert (SL : val M < hyp_total). { unfold shrinking, gtb in EX. apply ltb_true in EX; [|assumption|assumption]. lra. }
+      assert (K : SCtx k (val M) gaps).
+      { constructor; cbn; try assumption; try reflexivity. exists M. repeat split; try assumption; reflexivity. }
+      assert (I : InvS (val M) gaps items1).
+      { constructor.
+        - intros c' Hc'. apply in_map_iff in Hc'. destruct Hc' as [c [<- Hc]]. destruct (FF c Hc) as [S [F1 _]].
+          split; [assumption|]. apply (sprem_static c _ S). destruct (Hp c Hc) as [_ [_ [Hh _]]].
+          destruct (HS SL c Hc) as [G1 [G2 G3]]. repeat split; assumption.
+        - intros c' Hc' E'. apply in_map_iff in Hc'. destruct Hc' as [c [<- Hc]]. destruct (FF c Hc) as [S [_ [T1 [_ FE]]]].
+          destruct (static_q _ _ S) as [Eb [_ [Eh _]]]. rewrite Eb, Eh, T1. split; [|intros _; reflexivity].
+          destruct (Qlt_le_dec (qb c) (qh c)) as [L|L]; [|assumption]. exfalso.
+          assert (fi_frozen (freeze_inflexible false false shrinking c) = true) by (apply FE; right; right; right; auto).
+          congruence.
+        - intros c' Hc' E'. apply in_map_iff in Hc'. destruct Hc' as [c [<- Hc]]. destruct (FF c Hc) as [S [_ [T1 [O1 _]]]].
+          destruct (static_q _ _ S) as [_ [_ [_ [_ [_ [_ [_ [_ Em]]]]]]]]. rewrite (O1 E'), T1, Em. reflexivity.
+        - rewrite LoE. fold hyp_total. assumption.
+        - left. intros c' Hc' E' Hg'. apply in_map_iff in Hc'. destruct Hc' as [c [<- Hc]].
+          destruct (FF c Hc) as [S [_ [T1 [_ FE]]]]. rewrite (qw_static _ _ S) in Hg'.
+          destruct (static_q _ _ S) as [_ [_ [_ [_ [Emn _]]]]].
+          apply FE in E'. destruct E' as [E'|[[_ Z]|[[E' _]|[_ L]]]]; try discriminate.
+          + exfalso. apply Hg'. unfold qw. rewrite Z. ring.
+          + destruct (Hp c Hc) as [Fc [_ [Hh _]]]. unfold at_min. rewrite T1, Emn, Hh.
+            unfold qcl. apply qclamp_gt_min. unfold qcl in Hh. lra. }
+      destruct (flex_loop_shrinking k (val M) gaps K (S (length items1)) items1 I Hlen) as [res [R1 [R2 R3]]].
+      exists res. split; [exact R1|]. split; [exact (Forall2_static_trans _ _ _ ST1 R3)|]. split.
+      * intros c Hc. split; [apply (ps_frozen _ _ _ R2 c Hc)|]. split; [apply (ps_fin _ _ _ R2 c Hc) | apply (ps_outer _ _ _ R2 c Hc)].
+      * destruct (ps_law _ _ _ R2) as [L|L]; [left; assumption|]. right. right. split; [assumption|].
+        intros c Hc N1 N2. apply L; [assumption|]. unfold qw. intro Z.
+        destruct (Qeq_dec (qib c) 0) as [Z1|Z1]; [tauto|]. apply N1.
+        apply (Qmult_integral_l (qib c)); assumption.
+Qed.
